@@ -204,6 +204,7 @@ Kind(n, t, kd) ==
     [] kd = "v1c16" -> Plain(n, t, 1, 16, 0)
     [] kd = "xs"   -> [Plain(n, t, 1, 1, 0) EXCEPT !.mut = [kind |-> "scalar", slot |-> "d1", j |-> t - 1, how |-> "plus1"]]
     [] kd = "xp"   -> [Plain(n, t, 2, 4, 0) EXCEPT !.mut = [kind |-> "point", slot |-> "L", j |-> 0, how |-> "rand"]]
+    [] kd = "xi"   -> [Plain(n, t, 1, 1, 0) EXCEPT !.mut = [kind |-> "point", slot |-> "A1", j |-> 0, how |-> "identity"]]   \* refused half-way: a point is the identity
     [] kd = "xv"   -> [Member(n, t, 1, 1, "mid", "mid", 0, "lt", "lt", 0, 1, 0, "chacha") EXCEPT !.v.proms[1] = None]
     [] kd = "xl"   -> [Plain(n, t, 1, 1, 1) EXCEPT !.v.label = 1]
     [] kd = "xr"   -> [Plain(n, t, 2, 2, 0) EXCEPT !.mut = [kind |-> "rounds", slot |-> "none", j |-> -1, how |-> "none"]]   \* too few rounds
@@ -229,7 +230,7 @@ Kind(n, t, kd) ==
     [] kd = "dh8"  -> LET mb == Plain(n, t, 8, 8, 0) IN [mb EXCEPT !.v.pgH = 1]      \* disagrees on H and is the largest member
     [] kd = "dg8"  -> LET mb == Plain(n, t, 8, 16, 0) IN [mb EXCEPT !.v.pgG = t]     \* disagrees on the last G_k, largest member
 ValidKinds == {"v1", "v1s", "v2", "v4c8"}
-BadKinds == {"xs", "xp", "xv", "xl", "xr", "xk"}
+BadKinds == {"xs", "xp", "xv", "xl", "xr", "xk", "xi"}
 DisKinds == {"dn", "dt", "dh", "dg", "dh8", "dg8", "vn", "vt"}
 Pattern(pt, x) == CASE pt = 1 -> (IF x % 4 = 0 \/ x = 1 THEN "dup" ELSE "v1") [] pt = 2 -> (IF x % 4 = 3 THEN "v1sL" ELSE IF x % 2 = 1 THEN "v1s" ELSE "v2") [] pt = 3 -> (IF x % 3 = 0 THEN "v4c8" ELSE IF x % 3 = 1 THEN "v1s" ELSE "v1c16")
 FamBatch ==
@@ -421,6 +422,8 @@ LongPat(p, x, k) ==
 FamLong ==
   { ScenF([x \in 1..k |-> Kind(nt[1], nt[2], LongPat(p, x, k))], mode, NoSkew, FALSE, <<Kind(nt[1], nt[2], "v1")>>) :
       k \in {21, 26, 33, 40}, p \in {1, 2, 3}, nt \in {<<4, 1>>, <<2, 2>>}, mode \in Modes }
+  \* many SEEDED members at the highest extension degree (the nonces re-derived for recovery grow with members x rounds x degree)
+  \cup { ScenF([x \in 1..k |-> Kind(8, 6, IF x % 2 = 0 THEN "v1s" ELSE "v1t")], mode, NoSkew, FALSE, <<Kind(8, 6, "v1")>>) : k \in {80, 140}, mode \in Modes }
 
 Scenarios ==
   CASE Family = "complete" -> FamComplete
